@@ -227,10 +227,10 @@ Qed.
    two halves of one closure for ever), which closures exist (w_D), and which Lua cells have a content that cannot
    change (w_P: the temporaries of the callers, while a callee runs).  w_R, w_F and w_D only grow. ---- *)
 Record fdyn := mkFdyn {
-  fd_var : N; fd_params : list N; fd_pk : list kind; fd_body : list Resolved.stmt;
+  fd_var : N; fd_params : list N; fd_pk : list kind; fd_rk : kind; fd_body : list Resolved.stmt;
   fd_sc : list N;                 (* the user variables its body sees (the scope at its definition) *)
   fd_fl : list (N * kind);         (* the functions its body can call: the visible ones and itself *)
-  fd_g : nat; fd_k : nat; fd_scout : list N * list (N * kind);
+  fd_g : nat; fd_k : nat;
   fd_code : list ir; fd_ctx : N; fd_c : N; fd_c' : N; fd_lut : alut;
   fd_cf : nat; fd_ci : nat; fd_ef : senv;            (* Sylt: cell of the name, closure index, closure environment *)
   fd_pf : positive; fd_fid : positive; fd_Ef : env   (* Lua: cell of the name, closure id, closure environment *)
@@ -247,7 +247,7 @@ Record world := mkWorld {
 Definition fnames (fl : list (N * kind)) : list N := map fst fl.
 
 (* the kind of a closure *)
-Definition dkind (d : fdyn) : kind := KF (fd_pk d) KP.
+Definition dkind (d : fdyn) : kind := KF (fd_pk d) (fd_rk d).
 
 (* a world that knows at least what another one knows; the fixed cells are the same *)
 Definition wsub (W W' : world) : Prop :=
@@ -283,8 +283,9 @@ Variable u : counts.   (* the usage counts of the whole program *)
 (* the facts about a closure that never change *)
 Record fstatic (d : fdyn) : Prop := mkFstatic {
   fs_lower : lower_fbody (statement (fd_g d)) (expression (fd_g d)) (fd_body d) (fd_ctx d) (fd_c d) = Ok (fd_code d, fd_c' d);
-  fs_frag : frag_stmts pv sv bound (snd (bind_scope (fd_params d) (fd_pk d) (fd_sc d) (fd_fl d))) (fd_k d)
-                       (fst (bind_scope (fd_params d) (fd_pk d) (fd_sc d) (fd_fl d))) (fd_body d) = Some (fd_scout d);
+  fs_frag : fbody_check (frag_stmts pv sv bound (snd (bind_scope (fd_params d) (fd_pk d) (fd_sc d) (fd_fl d))) (fd_k d)
+                                    (fst (bind_scope (fd_params d) (fd_pk d) (fd_sc d) (fd_fl d))))
+                        (fun fl1 sc1 e => frag_fexpr pv sv bound fl1 (fd_k d) sc1 e) (fd_k d) (fd_body d) (fd_rk d) = true;
   fs_pk : length (fd_pk d) = length (fd_params d);
   fs_params : params_ok pv sv bound (fd_fl d) (fd_sc d) (fd_params d) = true;
   fs_scb : forall g, In g (fd_sc d) -> g < bound /\ g <> pv;
